@@ -48,7 +48,7 @@ def gen_single(rng):
     P, n = geomgen.convex_polygon(rng)
     c = P.mean(axis=0)
     R = np.abs(P - c).max()
-    kind = rng.choice(['off-off', 'on-off', 'on-on', 'off-coplanar'], p=[0.6, 0.25, 0.05, 0.1])
+    kind = rng.choice(['off-off', 'on-off', 'on-on', 'off-coplanar', 'through', 'miss'], p=[0.3, 0.2, 0.05, 0.1, 0.25, 0.1])
 
     def interior():
         w = rng.dirichlet(np.ones(len(P)))
@@ -60,6 +60,22 @@ def gen_single(rng):
         if abs(d) < 0.01:
             x = x + n * (0.01 + abs(d)) * np.sign(d if d != 0 else 1)
         return x
+    if kind in ('through', 'miss'):
+        # a sight line aimed at a chosen point of the surface's plane: anywhere inside the polygon
+        # (Dirichlet weights with small parameters reach the corners and the rim), or just outside
+        w = rng.dirichlet(np.full(len(P), float(rng.choice([0.3, 1.0, 3.0]))))
+        target = (w[:, None] * P).sum(axis=0)
+        if kind == 'miss':
+            k = int(rng.integers(0, len(P)))
+            mid = 0.5 * (P[k] + P[(k + 1) % len(P)])
+            target = mid + (mid - c) / np.linalg.norm(mid - c) * float(rng.uniform(0.01, 0.5) * R)
+        u = rng.normal(size=3)
+        u = u - n * np.dot(u, n)
+        d = n * float(rng.choice([-1.0, 1.0])) + 0.7 * u / max(np.linalg.norm(u), 1e-9) * rng.uniform(0, 1)
+        d = d / np.linalg.norm(d)
+        a = target + d * float(rng.uniform(0.05, 2.0) * R)
+        b = target - d * float(rng.uniform(0.05, 2.0) * R)
+        return P, n, a, b, False, False
     if kind == 'off-off':
         return P, n, off(), off(), False, False
     if kind == 'on-off':
